@@ -853,7 +853,7 @@ impl<VM: VMBinding> CommonPlan<VM> {
             if #[cfg(feature = "immortal_as_nonmoving")] {
                 self.nonmoving.release();
             } else if #[cfg(feature = "marksweep_as_nonmoving")] {
-                self.nonmoving.prepare(_full_heap);
+                self.nonmoving.release();
             } else {
                 // Objects in the non-moving space are not traced in nursery GCs (they are treated
                 // as mature), so their lines are not marked.  Sweeping the space in a nursery GC
